@@ -79,11 +79,107 @@ class _Shim:
 
 
 class Btp:
-    def __init__(self):
+    """BTP router stub. `fail_windows` = [[from_ms, to_ms], ...] (virtual clock, inclusive): a request made inside
+    a window raises OSError, as a lower layer that is temporarily unavailable does; `fail_now` is a switch for
+    the same (VAM scripts fail per report). Every refusal is recorded in `raised`."""
+
+    def __init__(self, fail_windows=None):
         self.sent = []
+        self.raised = []
+        self.fail_windows = [tuple(w) for w in (fail_windows or [])]
+        self.fail_now = False
 
     def btp_data_request(self, request):
-        self.sent.append((VCLOCK.ms, request.destination_port, bytes(request.data)))
+        t = VCLOCK.ms
+        if self.fail_now or any(a <= t <= b for (a, b) in self.fail_windows):
+            self.raised.append(t)
+            raise OSError("link layer temporarily unavailable (scripted)")
+        self.sent.append((t, request.destination_port, bytes(request.data)))
+
+    def register_indication_callback_btp(self, port, callback):
+        self.callbacks = getattr(self, "callbacks", {})
+        self.callbacks[port] = callback
+
+
+class CoderSpy:
+    """the repository's coder, recording every encode call that raised (the encoder is the environment of the
+    transmission management: whether it accepted the message is an input of the model)"""
+
+    def __init__(self, coder):
+        self._coder = coder
+        self.rejected = []
+
+    def encode(self, msg):
+        try:
+            return self._coder.encode(msg)
+        except Exception as e:
+            self.rejected.append((VCLOCK.ms, type(e).__name__))
+            raise
+
+    def __getattr__(self, name):
+        return getattr(self._coder, name)
+
+
+class LdmAdapterStub:
+    """stands for CABasicServiceLDM / VRUBasicServiceLDM (the adapter through which a service stores its own
+    messages in the LDM); raises inside the scripted windows / while `fail_now`"""
+
+    def __init__(self, fail_windows=None):
+        self.added = []
+        self.raised = []
+        self.fail_windows = [tuple(w) for w in (fail_windows or [])]
+        self.fail_now = False
+
+    def add_provider_data_to_ldm(self, msg):
+        t = VCLOCK.ms
+        if self.fail_now or any(a <= t <= b for (a, b) in self.fail_windows):
+            self.raised.append(t)
+            raise RuntimeError("LDM refused the data object (scripted)")
+        self.added.append(t)
+
+
+# Malformed reports (outside what a GNSS daemon produces; the services must survive them). rep["bad"] names the
+# corruption so that replays stay plain JSON. "enc": a CAM built from the report is rejected by the UPER encoder
+# (value below the lower bound of its type); "build": building the message from the report raises.
+BAD_KINDS = {
+    "neg_speed": ("enc", {"speed": -1.0}),
+    "lat_below": ("enc", {"lat": -91.5}),
+    "lon_below": ("enc", {"lon": -181.25}),
+    "nan_speed": ("build", {"speed": float("nan")}),
+    "nan_track": ("build", {"track": float("nan")}),
+    "nan_lat": ("build", {"lat": float("nan")}),
+    "nan_alt": ("build", {"altHAE": float("nan")}),
+    "inf_epx": ("build", {"epx": float("inf"), "epy": 1.0}),
+    "bad_time": ("build", {"time": "not-a-time"}),
+}
+# kinds that leave heading / speed / position comparable (the dynamics evaluation of the code works on them and
+# the model gets the same rationals); for the others Python's comparisons with NaN are all False, which the
+# model stream expresses by marking the field absent
+BAD_VAM_KINDS = ("nan_speed", "nan_track", "nan_lat", "nan_alt", "inf_epx", "bad_time")   # VAM: builder raises
+
+
+def bad_fields(rep):
+    """the corrupted TPV fields of a malformed report ({} for a well-formed one)"""
+    return BAD_KINDS[rep["bad"]][1] if rep.get("bad") else {}
+
+
+def model_rep(rep):
+    """the report as the model (and the oracle) sees it: corrupted numeric fields replaced (negative speed etc.
+    stay), NaN fields dropped"""
+    b = bad_fields(rep)
+    if not b:
+        return rep
+    r = dict(rep)
+    for k, v in b.items():
+        if k == "time":
+            continue
+        if isinstance(v, float) and (math.isnan(v) or math.isinf(v)):
+            r.pop(k, None)
+            if k in ("lat", "lon"):
+                r["nanpos"] = True
+        else:
+            r[k] = v
+    return r
 
 
 _phase = [0.25]
@@ -93,8 +189,19 @@ def _vtime() -> float:
     return (VCLOCK.ms + _phase[0]) / 1000
 
 
+def quiet_logs():
+    """the services log every skipped transmission with a traceback (logging.exception): keep that off stderr"""
+    import logging
+    for n in ("ca_basic_service", "vru_basic_service"):
+        lg = logging.getLogger(n)
+        lg.propagate = False
+        if not lg.handlers:
+            lg.addHandler(logging.NullHandler())
+
+
 def patch_env(initial_delay_box):
     """virtual time, fake timers and scripted initial delay, from outside the repository"""
+    quiet_logs()
     from flexstack.utils import time_service
     import flexstack.facilities.ca_basic_service.cam_transmission_management as ctm
     time_service.TimeService.time = staticmethod(_vtime)
@@ -130,6 +237,7 @@ def tpv_of(rep: dict) -> dict:
     for k in ("lat", "lon", "track", "speed", "altHAE", "epx", "epy", "epv", "epd"):
         if k in rep:
             t[k] = rep[k]
+    t.update(bad_fields(rep))
     return t
 
 
@@ -144,11 +252,23 @@ def run_cam_script(script: dict):
     _phase[0] = script.get("phase", 0.25)
     FakeTimer.reset()
     VCLOCK.set_ms(script["t0"])
-    btp = Btp()
+    btp = Btp(script.get("btp_fail"))
+    spy = CoderSpy(cam_coder())
+    ldm = LdmAdapterStub(script.get("ldm_fail")) if script.get("ldm") else None
     vd = ctm.VehicleData(station_id=4242, station_type=script.get("station_type", 5), drive_direction="forward",
                          vehicle_length={"vehicleLengthValue": 42, "vehicleLengthConfidenceIndication": "unavailable"},
-                         vehicle_width=18)
-    mgr = ctm.CAMTransmissionManagement(btp, cam_coder(), vd)
+                         vehicle_width=18, vehicle_role=script.get("role", 0))
+    if script.get("via_service"):
+        # through the service object of ca_basic_service.py (start / stop are its methods); it gets the shared coder
+        # (compiling the ASN.1 takes seconds) and, when the script asks for one, the LDM adapter stub
+        import flexstack.facilities.ca_basic_service.ca_basic_service as cbs
+        cbs.CAMCoder = cam_coder
+        svc = cbs.CooperativeAwarenessBasicService(btp, vd, None)
+        mgr = svc.cam_transmission_management
+        mgr.cam_coder = spy
+        mgr.ca_basic_service_ldm = ldm
+    else:
+        mgr = svc = ctm.CAMTransmissionManagement(btp, spy, vd, ldm)
     events = list(script["events"])
     jitter = script.get("jitter") or [0]
     ops = []            # dicts: {"op": "start"|"stop"|"report"|"check", "t": ms, ...}
@@ -164,10 +284,10 @@ def run_cam_script(script: dict):
         n0 = len(btp.sent)
         if what == "start":
             delay_box[0] = ev[2] / 1000.0
-            mgr.start()
+            svc.start()
             ops.append({"op": "start", "t": VCLOCK.ms})
         elif what == "stop":
-            mgr.stop()
+            svc.stop()
             ops.append({"op": "stop", "t": VCLOCK.ms})
         else:
             rep = ev[2]
@@ -194,16 +314,30 @@ def run_cam_script(script: dict):
         FakeTimer.registry = [x for x in FakeTimer.registry if x[2] is not tm]
         VCLOCK.set_ms(max(VCLOCK.ms, fire_at))
         nfire += 1
-        n0 = len(btp.sent)
+        n0, r0, e0 = len(btp.sent), len(btp.raised), len(spy.rejected)
+        l0 = len(ldm.raised) if ldm is not None else 0
+        fail = []           # why no CAM could be handed over at this check (observed on the lower layers)
         try:
             tm.fire()
         except Exception as e:   # an exception escaping the timer callback kills that timer thread
-            errors.append((VCLOCK.ms, type(e).__name__, str(e)[:200]))
-        ops.append({"op": "check", "t": VCLOCK.ms, "sent": btp.sent[n0:],
+            cur = reports[-1] if reports else None
+            if cur is not None and cur.get("bad") and BAD_KINDS[cur["bad"]][0] == "build":
+                # building a CAM from a malformed report raised (outside the Annex B.2.5 try block): the timer
+                # has been re-armed by the `finally`, nothing was sent; judged as a failed hand-over
+                fail.append("build:" + type(e).__name__)
+            else:
+                errors.append((VCLOCK.ms, type(e).__name__, str(e)[:200]))
+        if len(spy.rejected) > e0:
+            fail.append("encoder:" + spy.rejected[-1][1])
+        if len(btp.raised) > r0:
+            fail.append("lower_layer")
+        ops.append({"op": "check", "t": VCLOCK.ms, "sent": btp.sent[n0:], "fail": fail,
+                    "ldm_raised": (len(ldm.raised) - l0) if ldm is not None else 0,
                     "t_gen": getattr(mgr, "t_gen_cam", None), "n_cnt": getattr(mgr, "_n_gen_cam_counter", None)})
     return {"ops": ops, "reports": reports, "errors": errors, "pending_timers": len(FakeTimer.pending()),
             "intervals": [x[2] for x in FakeTimer.log if x[0] == "start"],
-            "active": getattr(mgr, "_active", None)}
+            "active": getattr(mgr, "_active", None),
+            "ldm_added": list(ldm.added) if ldm is not None else None}
 
 
 def decode_cam(data: bytes):
@@ -307,9 +441,10 @@ def analyse_cam(ctx, script, obs, tag):
             continue
         if kind == "report":
             cur = o["rid"]
-            rep = reports[cur]
+            rep = model_rep(reports[cur])
             stream += [2, cur, its_of_utc_ms(rep["ts"]), int("track" in rep)] + (qpair(rep["track"]) if "track" in rep else [0, 1]) \
-                + [int("lat" in rep and "lon" in rep), int("speed" in rep)] + (qpair(rep["speed"]) if "speed" in rep else [0, 1])
+                + [int(("lat" in rep and "lon" in rep) or bool(rep.get("nanpos"))), int("speed" in rep)] \
+                + (qpair(rep["speed"]) if "speed" in rep else [0, 1])
             if active and avail_since is None:
                 avail_since = o["t"]
                 prev_check_t = None
@@ -324,16 +459,34 @@ def analyse_cam(ctx, script, obs, tag):
                                      + ("not active" if not active else "without position data"), 0, len(sent))
             stream += [3, t, -1, 0, 1]
             continue
-        rep = reports[cur]
+        rep = model_rep(reports[cur])
+        malformed = bool(rep.get("bad"))
+        nanpos = bool(rep.get("nanpos"))       # position key present but NaN: the code's distance test is False
         haspos = "lat" in rep and "lon" in rep
         dist = 0.0
         if haspos and ref_pos_rid is not None:
             r0 = reports[ref_pos_rid]
             dist = haversine_m(r0["lat"], r0["lon"], rep["lat"], rep["lon"])
+        if o.get("fail"):
+            # No CAM could be handed over at this check (encoder / lower layer refused, or the message could not
+            # be built from a malformed report): nothing the property demands of a check can be demanded here.
+            # For the model it is a CheckFail; the property oracle goes on with unchanged expectations, i.e. the
+            # low-frequency interval still runs from the last CAM that was really sent with the container, and
+            # the spacing of the checks (max_spacing) now spans the failed one.
+            for why in o["fail"]:
+                ctx.count(1, "cam_failed_check_" + why.split(":")[0])
+            if first_pending or last_lf_t is None or (t - last_lf_t) >= 500:
+                ctx.count(1, "cam_failed_check_lf_due")
+            if sent:
+                ctx.property_failure("cam_sent_at_failed_check", mk(), f"a CAM was handed over at {t} although the "
+                                     f"lower layers refused it ({o['fail']})", 0, len(sent))
+            stream += [4, t]
+            ctx.nontriv((tag, i, t, "failed"))
+            continue
         # what the property demands at this check
         must = None
         ambiguous = False
-        if last_cam is not None:
+        if last_cam is not None and not malformed:
             elapsed = t - last_cam["t"]
             r0 = reports[last_cam["rid"]]
             trig = []
@@ -360,6 +513,8 @@ def analyse_cam(ctx, script, obs, tag):
             truncated = i
             break
         stream += [3, t, ref_pos_rid if ref_pos_rid is not None else -1] + qpair(dist)
+        if o.get("ldm_raised"):
+            ctx.count(1, "cam_check_ldm_refused")
         if prev_check_t is not None:
             max_spacing = max(max_spacing, t - prev_check_t)
         elif avail_since is not None:
@@ -496,6 +651,10 @@ def gen_cam_script(rng, kind: str, duration_ms: int, t0=None):
         p_miss["track"] = 1.0
     decimal = kind == "decimal"
     events = []
+    bad_left, bad_kind = 0, None
+    p_bad = {"badrep": 0.04, "chaos": 0.02, "badfirst": 0.0}.get(kind, 0.0)
+    if kind == "badfirst":        # the service is started while the latest report is one no CAM can be built from
+        bad_left, bad_kind = rng.choice([1, 3, 8, 30]), rng.choice(sorted(BAD_KINDS))
     t = t0 + rng.randrange(0, 1000)
     # start/stop plan
     plan = []
@@ -573,6 +732,16 @@ def gen_cam_script(rng, kind: str, duration_ms: int, t0=None):
                 rep["epv"] = 4.0
             if rng.random() < 0.5:
                 rep["epd"] = 1.5
+            if bad_left == 0 and p_bad and rng.random() < p_bad:
+                bad_left, bad_kind = rng.choice([1, 1, 1, 2, 4, 12]), rng.choice(sorted(BAD_KINDS))
+            if bad_left > 0:
+                # a malformed report (one, or a burst): every field its corruption needs is present
+                bad_left -= 1
+                rep["bad"] = bad_kind
+                rep.setdefault("lat", lat)
+                rep.setdefault("lon", lon)
+                rep.setdefault("track", track)
+                rep.setdefault("speed", speed)
             events.append([t, "report", rep])
         t += period if kind != "jitterrep" else max(1, period + rng.randrange(-period // 2, period // 2 + 1))
     events += [list(p) for p in plan]
@@ -580,12 +749,60 @@ def gen_cam_script(rng, kind: str, duration_ms: int, t0=None):
     jit = [0]
     if rng.random() < 0.4:
         jit = [rng.choice([0, 0, 0, 1, 2, 5, 13, 40]) for _ in range(rng.randrange(1, 12))]
-    return {"kind": "cam", "gen": kind, "t0": t0, "phase": rng.choice([0.25, 0.05, 0.5, 0.9]), "jitter": jit,
-            "station_type": rng.choice([5, 5, 2, 4, 15]), "events": events, "end": t0 + duration_ms}
+    script = {"kind": "cam", "gen": kind, "t0": t0, "phase": rng.choice([0.25, 0.05, 0.5, 0.9]), "jitter": jit,
+              "station_type": rng.choice([5, 5, 2, 4, 15]), "events": events, "end": t0 + duration_ms}
+
+    def windows(per_s):
+        out = []
+        for _ in range(max(1, int(duration_ms / 1000 * per_s))):
+            a = t0 + rng.randrange(0, duration_ms)
+            out.append([a, a + rng.choice([99, 99, 99, 40, 250, 600, 1500])])     # 99 ms: exactly one check
+        return sorted(out)
+    if kind in ("linkfail", "chaos"):
+        script["btp_fail"] = windows(0.4 if kind == "linkfail" else 0.15)
+    if kind in ("ldm", "chaos"):
+        script["ldm"] = True
+        script["ldm_fail"] = windows(0.3) if rng.random() < 0.8 else []
+    if rng.random() < (0.6 if kind in ("restart", "chaos") else 0.25):
+        script["via_service"] = True
+    if kind in ("ldm", "chaos", "badrep") and rng.random() < 0.5:
+        script["role"] = rng.choice([1, 5, 6, 9])      # a special-vehicle role: its container timer runs beside the LF one
+    return script
+
+
+def cams_of(obs):
+    """(time, carries the low-frequency container) of every CAM of an observation"""
+    out = []
+    for o in obs["ops"]:
+        for (_, _, data) in o.get("sent", []):
+            try:
+                out.append((o["t"], decode_cam(data)["lf"]))
+            except Exception:
+                pass
+    return out
+
+
+def target_cam_failures(rng, script, what="btp_fail"):
+    """Failures at chosen checks: the script is run once undisturbed, then the lower layer (or the LDM adapter) is
+    made to fail exactly at checks that sent a CAM - preferably CAMs that carried the low-frequency container
+    (not the first), the case in which a wrongly advanced container timer shows."""
+    cams = cams_of(run_cam_script(script))
+    lf = [t for (t, l) in cams[1:] if l]
+    hf = [t for (t, l) in cams[1:] if not l]
+    first = [cams[0][0]] if cams and rng.random() < 0.3 else []
+    chosen = first + rng.sample(lf, min(len(lf), rng.choice([1, 2, 4]))) + rng.sample(hf, min(len(hf), rng.choice([0, 1, 2])))
+    s2 = dict(script)
+    s2["gen"] = script.get("gen", "") + "+targeted_" + what
+    if what == "ldm_fail":
+        s2["ldm"] = True
+    s2[what] = sorted(list(script.get(what) or []) + [[t, t + rng.choice([0, 0, 99, 199])] for t in chosen])
+    return s2
 
 
 CAM_KINDS = ("constant", "accel", "turn", "stopgo", "missing", "notrack", "gaps", "restart", "near", "decimal", "gdtwrap",
              "mixed", "jitterrep")
+# audit round: handed-over CAMs that fail (malformed reports, lower layer, LDM adapter)
+CAM_FAIL_KINDS = ("badrep", "badfirst", "linkfail", "ldm", "chaos")
 
 
 # --------------------------------------------------------------------------- VAM
@@ -625,30 +842,48 @@ def run_vam_script(script: dict):
     from flexstack.utils import time_service
     import flexstack.facilities.vru_awareness_service.vam_transmission_management as vtm
     _phase[0] = script.get("phase", 0.25)
+    quiet_logs()
     time_service.TimeService.time = staticmethod(_vtime)
     vtm.TimeService.time = staticmethod(_vtime)
     btp = Btp()
+    spy = CoderSpy(vam_coder())
+    ldm = LdmAdapterStub() if script.get("ldm") else None
     stub = StubCluster() if script.get("cluster", True) else None
-    mgr = vtm.VAMTransmissionManagement(btp, vam_coder(), vtm.DeviceDataProvider(station_id=77, station_type=1),
-                                        clustering_manager=stub)
+    mgr = vtm.VAMTransmissionManagement(btp, spy, vtm.DeviceDataProvider(station_id=77, station_type=1),
+                                        vru_basic_service_ldm=ldm, clustering_manager=stub)
     obs = []
     for rep in script["reports"]:
         VCLOCK.set_ms(rep["at"])
         if stub is not None:
             stub.gate, stub.clop = bool(rep.get("gate", True)), bool(rep.get("clop", False))
-        n0 = len(btp.sent)
+        btp.fail_now = bool(rep.get("linkfail"))          # the lower layer raises if a VAM is handed over now
+        if ldm is not None:
+            ldm.fail_now = bool(rep.get("ldmfail"))
+        n0, r0, e0 = len(btp.sent), len(btp.raised), len(spy.rejected)
+        l0 = len(ldm.raised) if ldm is not None else 0
         err = None
+        fail = []
         try:
             mgr.location_service_callback(tpv_of(rep))
         except Exception as e:
             err = f"{type(e).__name__}: {e}"
-        obs.append({"sent": btp.sent[n0:], "err": err})
+            if rep.get("bad"):
+                fail.append("build:" + type(e).__name__)
+        if len(spy.rejected) > e0:
+            fail.append("encoder:" + spy.rejected[-1][1])
+        if len(btp.raised) > r0:
+            fail.append("lower_layer")
+        if ldm is not None and len(ldm.raised) > l0:
+            fail.append("ldm")
+        obs.append({"sent": btp.sent[n0:], "err": err, "fail": fail})
     return obs
 
 
 def vam_codes(rep):
     """the integers the VAM builder writes for this report (same float expressions as the code; C11 checks them
     against the exact rational model)"""
+    if rep.get("bad"):
+        return 900000001, 1800000001, 16383, 3601      # never written into a VAM: the builder raises
     latc = int(rep["lat"] * 10000000) if "lat" in rep else 900000001
     lonc = int(rep["lon"] * 10000000) if "lon" in rep else 1800000001
     spc = 16383
@@ -678,14 +913,30 @@ def analyse_vam(ctx, script, obs, tag):
         gate = bool(rep.get("gate", True)) or not has_stub
         clop = bool(rep.get("clop", False)) and has_stub
         latc, lonc, spc, trc = vam_codes(rep)
+        failed = bool(o.get("fail"))
         haspos = "lat" in rep and "lon" in rep
         stream += [its_of_utc_ms(rep["ts"]), rep["at"], int(gate), int(clop), int(haspos)] \
             + (qpair(rep["lat"]) + qpair(rep["lon"]) if haspos else [0, 1, 0, 1]) + [latc, lonc] \
             + [int("speed" in rep)] + (qpair(rep["speed"]) if "speed" in rep else [0, 1]) + [spc] \
-            + [int("track" in rep)] + (qpair(rep["track"]) if "track" in rep else [0, 1]) + [trc]
+            + [int("track" in rep)] + (qpair(rep["track"]) if "track" in rep else [0, 1]) + [trc] + [int(failed)]
+        sent = o["sent"]
+        if failed:
+            # No VAM could be handed over for this report (the builder raised on a malformed report, or the LDM
+            # adapter / encoder / lower layer raised): the exception leaves the callback (the caller's business),
+            # nothing is sent and the property's expectations stay as they were - the low-frequency interval
+            # still runs from the last VAM that really carried the container, and the report spacing (max_sp)
+            # now spans this report.
+            for why in o["fail"]:
+                ctx.count(1, "vam_failed_report_" + why.split(":")[0])
+            if gate and (last is None or last_lf_at is None or rep["at"] - last_lf_at >= 2000):
+                ctx.count(1, "vam_failed_report_lf_due")
+            if sent:
+                ctx.property_failure("vam_sent_at_failed_report", mk(), f"report {i}: a VAM was handed over although the "
+                                     f"lower layers refused it ({o['fail']})", 0, len(sent))
+            ctx.nontriv((tag, i, rep["ts"], "failed"))
+            continue
         if o["err"]:
             ctx.property_failure("vam_callback_exception", mk(), f"report {i}: the location callback raised {o['err']}")
-        sent = o["sent"]
         if prev_at is not None:
             max_sp = max(max_sp, rep["at"] - prev_at)
         prev_at = rep["at"]
@@ -780,8 +1031,11 @@ def gen_vam_script(rng, kind: str, n: int):
     gate_until = 0
     gap_until = 0
     pm = {k: (rng.choice([0, 0.05, 0.5, 1.0]) if kind == "missing" else 0.0) for k in ("pos", "speed", "track")}
+    bad_left, bad_kind, fail_left = 0, None, 0
+    if kind == "chaos" and rng.random() < 0.5:
+        bad_left, bad_kind = rng.choice([1, 4]), rng.choice(BAD_VAM_KINDS)    # the very first reports are malformed
     for _ in range(n):
-        if kind == "dynamics":
+        if kind in ("dynamics", "chaos"):
             if rng.random() < 0.25:
                 speed = min(45.0, max(0.0, speed + rng.choice([dy(31), dy(32), dy(33), dy(64), -dy(33), -dy(70)])))
             if rng.random() < 0.25:
@@ -808,14 +1062,58 @@ def gen_vam_script(rng, kind: str, n: int):
             if rng.random() < 0.5:
                 rep["altHAE"] = 33.0
                 rep["epx"], rep["epy"], rep["epv"], rep["epd"] = 1.5, 2.5, 3.0, 2.0
+            if kind in ("badrep", "chaos"):
+                if bad_left == 0 and rng.random() < 0.03:
+                    bad_left, bad_kind = rng.choice([1, 1, 2, 5, 25]), rng.choice(BAD_VAM_KINDS)
+                if bad_left > 0:
+                    bad_left -= 1
+                    rep["bad"] = bad_kind
+                    rep.setdefault("lat", lat)
+                    rep.setdefault("lon", lon)
+                    rep.setdefault("track", track)
+                    rep.setdefault("speed", speed)
+            if kind in ("linkfail", "chaos"):
+                if fail_left == 0 and rng.random() < 0.04:
+                    fail_left = rng.choice([1, 1, 1, 3, 10, 30])
+                if fail_left > 0:
+                    fail_left -= 1
+                    rep["linkfail"] = True
+            if kind in ("ldm", "chaos") and rng.random() < 0.04:
+                rep["ldmfail"] = True
             reps.append(rep)
         t += period if kind != "jitterrep" else max(1, period + rng.randrange(-period // 2, period // 2 + 1))
-    return {"kind": "vam", "gen": kind, "phase": rng.choice([0.25, 0.05, 0.6, 0.9]), "cluster": kind != "nocluster",
-            "reports": reps}
+    script = {"kind": "vam", "gen": kind, "phase": rng.choice([0.25, 0.05, 0.6, 0.9]), "cluster": kind != "nocluster",
+              "reports": reps}
+    if kind in ("ldm", "chaos"):
+        script["ldm"] = True
+    return script
+
+
+def target_vam_failures(rng, script, what="linkfail"):
+    """the VAM analogue of target_cam_failures: the lower layer (or the LDM adapter) fails exactly at reports that
+    sent a VAM, preferably one that carried the low-frequency container"""
+    obs = run_vam_script(script)
+    lf, hf = [], []
+    for i, o in enumerate(obs):
+        for (_, _, data) in o["sent"]:
+            try:
+                (lf if decode_vam(data)["lf"] else hf).append(i)
+            except Exception:
+                pass
+    chosen = set(rng.sample(lf[1:], min(len(lf[1:]), rng.choice([1, 2, 4]))) + rng.sample(hf, min(len(hf), rng.choice([0, 1, 3]))))
+    if lf and rng.random() < 0.3:
+        chosen.add(lf[0])
+    s2 = dict(script)
+    s2["gen"] = script.get("gen", "") + "+targeted_" + what
+    if what == "ldmfail":
+        s2["ldm"] = True
+    s2["reports"] = [dict(r, **{what: True}) if i in chosen else r for i, r in enumerate(script["reports"])]
+    return s2
 
 
 VAM_KINDS = ("steady", "dynamics", "turn", "missing", "gaps", "passive", "clusterop", "decimal", "gdtwrap", "nocluster",
              "jitterrep")
+VAM_FAIL_KINDS = ("badrep", "linkfail", "ldm", "chaos")
 
 
 # --------------------------------------------------------------------------- entry points
@@ -855,6 +1153,15 @@ def run(ctx):
         for _ in range(2 if quick else 8):
             scripts.append(gen_cam_script(rng, kind, rng.choice([8_000, 20_000, 70_000]) if quick else rng.choice([30_000, 140_000, 400_000])))
     check_cam_scripts(ctx, scripts, "short")
+    # CAMs that cannot be handed over: malformed reports, lower layer / LDM adapter failing at random and at chosen checks
+    scripts = []
+    for kind in CAM_FAIL_KINDS:
+        for _ in range(2 if quick else 10):
+            scripts.append(gen_cam_script(rng, kind, rng.choice([8_000, 20_000, 40_000]) if quick else rng.choice([30_000, 140_000])))
+    for _ in range(4 if quick else 24):
+        base = gen_cam_script(rng, rng.choice(["accel", "turn", "mixed", "stopgo", "near"]), rng.choice([8_000, 20_000]))
+        scripts.append(target_cam_failures(rng, base, rng.choice(["btp_fail", "btp_fail", "ldm_fail"])))
+    check_cam_scripts(ctx, scripts, "fail")
     # long runs (hours of virtual time in the thorough tier)
     long_ms = 600_000 if quick else 3 * 3600_000
     check_cam_scripts(ctx, [gen_cam_script(rng, "mixed", long_ms)], "long")
@@ -866,6 +1173,14 @@ def run(ctx):
         for _ in range(3 if quick else 12):
             vs.append(gen_vam_script(rng, kind, rng.choice([200, 600, 1500]) if quick else rng.choice([1000, 4000, 12000])))
     check_vam_scripts(ctx, vs, "short")
+    vs = []
+    for kind in VAM_FAIL_KINDS:
+        for _ in range(3 if quick else 12):
+            vs.append(gen_vam_script(rng, kind, rng.choice([200, 600, 1500]) if quick else rng.choice([1000, 4000])))
+    for _ in range(4 if quick else 24):
+        base = gen_vam_script(rng, rng.choice(["steady", "dynamics", "clusterop", "passive", "jitterrep"]), rng.choice([300, 900]))
+        vs.append(target_vam_failures(rng, base, rng.choice(["linkfail", "linkfail", "ldmfail"])))
+    check_vam_scripts(ctx, vs, "fail")
     check_vam_scripts(ctx, [gen_vam_script(rng, "steady", 6_000 if quick else 200_000)], "long")
     ctx.exhaustive = False
 
